@@ -61,7 +61,9 @@ def run(tier):
         plan += [("explore G(0..4) x A2, exact x3, bound 2, direct 2", [["--n", n, "--alpha", "A2", "--bound", 2, "--direct-bound", 2, "--unbounded-dim", 2] for n in range(0, 5)]),
                  ("explore G(0..4) x A2, approx x3, k in {1,2,3}, bound 1", [["--n", n, "--alpha", "A2", "--bound", 1, "--direct-bound", 1, "--ks", "1,2,3"] for n in range(2, 5)]),
                  ("explore G(5) x U, exact x3, bound 1, direct 2", [["--n", 5, "--alpha", "U", "--bound", 1, "--direct-bound", 2]]),
-                 ("explore G(5) x U, approx x3, k=2, bound 1", [["--n", 5, "--alpha", "U", "--bound", 1, "--direct-bound", 1, "--ks", "2"]])]
+                 ("explore G(5) x U, approx x3, k=2, bound 1", [["--n", 5, "--alpha", "U", "--bound", 1, "--direct-bound", 1, "--ks", "2"]]),
+                 ("purity probe over G(6) x U, dim >= 4 (default schedule + probe; inputs whose reduce bodies share state get direct exploration at bound 2)",
+                  [["--n", 6, "--alpha", "U", "--bound", 0, "--direct-bound", 0, "--min-dim", 4]])]
     else:
         plan += [("explore G(0..4) x A3, exact x3, bound 2, direct 2", [["--n", n, "--alpha", "A3", "--bound", 2, "--direct-bound", 2, "--unbounded-dim", 2] for n in range(0, 5)]),
                  ("explore G(0..4) x A2, exact x3, bound 3, direct 3", [["--n", n, "--alpha", "A2", "--bound", 3, "--direct-bound", 3, "--unbounded-dim", 2] for n in range(0, 5)]),
@@ -70,13 +72,15 @@ def run(tier):
                  ("explore G(5) x A2, approx x3, k in {1,2}, bound 1", [["--n", 5, "--alpha", "A2", "--bound", 1, "--direct-bound", 1, "--ks", "1,2"]]),
                  ("explore G(5) x A2, exact x3, bound 1, direct 1", [["--n", 5, "--alpha", "A2", "--bound", 1, "--direct-bound", 1]]),
                  ("explore K6/K7/wheel/prism unit, exact x3, bound 1, direct 2", [["--families", "K:6,K:7,wheel:6,prism:4,petersen,Kb:3:4", "--alpha", "U", "--bound", 1, "--direct-bound", 2]]),
-                 ("explore G(6) x U, dim>=4, exact x3, bound 1, direct 1", [["--n", 6, "--alpha", "U", "--bound", 1, "--direct-bound", 1, "--min-dim", 4]])]
+                 ("explore G(6) x U, dim>=4, exact x3, bound 1, direct 1", [["--n", 6, "--alpha", "U", "--bound", 1, "--direct-bound", 1, "--min-dim", 4]]),
+                 ("explore G(6) x U, dim>=6, tree variants, direct bound 2", [["--n", 6, "--alpha", "U", "--bound", 0, "--direct-bound", 2, "--variants", "fvs_tbb,iso_tbb", "--min-dim", 6]]),
+                 ("purity probe over G(6) x A2 with m <= 10 and G(7) x U with dimension >= 6", [["--n", 7, "--alpha", "U", "--bound", 0, "--direct-bound", 0, "--min-dim", 6]])]
     for bound, arglists in plan:
         for args in arglists:
             rem = c.remaining(20)
             r = vlib.run_harness(ex, list(args) + ["--seed", vlib.seed(), "--deadline-s", int(rem)])
             c.add_run(r, bound + " :: " + r["args"], None, replay={"harness": "sched_tbb"})
-            for k in ("reduce_max_outcomes", "reduce_bodies_found_impure", "inputs_hitting_execution_cap"):
+            for k in ("reduce_max_outcomes", "reduce_bodies_found_impure", "inputs_hitting_execution_cap", "inputs_decided_by_direct_mode_only"):
                 c.extra[k] = max(c.extra.get(k, 0), r.get(k, 0))
             c.extra["direct_mode_schedules"] = c.extra.get("direct_mode_schedules", 0) + r.get("direct_mode_schedules", 0)
     # race half
